@@ -125,6 +125,12 @@ func (in *Interp) evalNode(x *Term) uint64 {
 		return math.Float64bits(float64(sext64(a(0), x.Args[0].Sort.W)))
 	case OpFPFromBits:
 		return a(0)
+	case OpFPRound:
+		return math.Float64bits(math.Round(math.Float64frombits(a(0))))
+	case OpFPToU:
+		return uint64(math.Float64frombits(a(0)))
+	case OpFPToS:
+		return uint64(int64(math.Float64frombits(a(0))))
 	case OpFPGe, OpFPGt, OpFPLe, OpFPLt, OpFPEq:
 		p, q := math.Float64frombits(a(0)), math.Float64frombits(a(1))
 		var r bool
